@@ -3,6 +3,7 @@
 from __future__ import annotations
 
 import sys
+from decimal import Decimal
 from typing import TYPE_CHECKING
 from typing import Any
 from typing import Generic
@@ -215,6 +216,15 @@ class FloatLiteral(Literal[float]):
 
     def __init__(self, token: Token, value: float):
         super().__init__(token, value)
+
+    def __str__(self) -> str:
+        rv = repr(self.value)
+        if "e" in rv:
+            # There's no exponent notation for float literals.
+            rv = format(Decimal(rv), "f")
+            if "." not in rv:
+                rv += ".0"
+        return rv
 
     def __eq__(self, other: object) -> bool:
         return isinstance(other, FloatLiteral) and self.value == other.value
